@@ -115,7 +115,8 @@ Definition under (root p : ppath) : bool :=
 (* ---- what request_to_localpath reads of the server and of the request *)
 Inductive etagref := ECur | EOther | EEmpty.     (* an ETag / If-Match value: the target's current ETag, another value, the empty byte string *)
 (* fs_cwd: the parts of the process's working directory (only read by os.path.abspath inside tempfile when the root is relative) *)
-Record fileserver := { fs_root : purepath; fs_write : bool; fs_etag_enabled : bool; fs_tmpname : list Z; fs_cwd : list (list Z) }.
+Record fileserver := { fs_root : purepath; fs_write : bool; fs_etag_enabled : bool; fs_tmpname : list Z; fs_cwd : list (list Z);
+                        fs_disk_full : bool }.    (* environment: writing a non-empty body into the spool file fails with ENOSPC *)
 Record request := {
   code : Z;                                       (* 1 GET, 2 POST, 3 PUT, 4 DELETE, 5 FETCH, 6 PATCH, 7 iPATCH *)
   opt_uri_path : list (list Z);
